@@ -44,12 +44,12 @@ func c15Rules(dir, file string) []c15Rule {
 	}
 }
 
-var c15Msgs = []string{"ends with semicolon;", "必须正确;", "two trailing;;", "trailing blank ", "must be ok", "必须正确", "age 必须 ok", "x", "必", "a=b", "a|b", "'a,b'", "'必须,正确'", "msg_17"}
+var c15Msgs = []string{"see the explain: column of the form", "年龄说明: 应该在 1-3 之间", "rate must be <= 100%", "折扣需在 5%-50% 之间", "%s %d %v", "ends with semicolon;", "必须正确;", "two trailing;;", "trailing blank ", "must be ok", "必须正确", "age 必须 ok", "x", "必", "a=b", "a|b", "'a,b'", "'必须,正确'", "msg_17"}
 
 func init() {
 	core.Register(&core.Prop{
 		ID: "C15",
-		Rule: "(A) every message-capable rule (32 keys, 44 rule/value rows incl. CJK rule values) x 14 messages (ending in ; or a blank, ASCII, CJK, mixed, one rune, with = | and quoted comma) and no message x failing / passing value x carriers {struct tag, struct RM, Var, map, url}: the clause must show label(msg)+' '+msg verbatim instead of default wording; without message an explain:-labelled non-empty default text; " +
+		Rule: "(A) every message-capable rule (32 keys, 44 rule/value rows incl. CJK rule values) x 19 messages (containing a label word, containing %, ending in ; or a blank, ASCII, CJK, mixed, one rune, with = | and quoted comma) and no message x failing / passing value x carriers {struct tag, struct RM, Var, map, url}: the clause must show label(msg)+' '+msg verbatim instead of default wording; without message an explain:-labelled non-empty default text; " +
 			"(B) GetOnlyExplainErr applied to real library errors of 1..8 clauses in every order pattern (k<=4 exhaustively, k<=8 random) over {Chinese-labelled, English default, English custom, unknown-rule (unlabelled), rule-writing error (unlabelled)} plus trailing group clauses. distinct = distinct error text fed to the extractor / distinct (rule,msg,carrier,fail) tuple; non-trivial = error with >=1 clause",
 		Shards: func(t core.Tier) int { return 8 },
 		Run:    runC15,
@@ -186,9 +186,9 @@ func runC15(c *core.Ctx) {
 			if rng.Intn(3) == 0 {
 				switch classes[p].name {
 				case "cu":
-					rule = "required|" + []string{"x", "y", "ab", "q;"}[rng.Intn(4)]
+					rule = "required|" + []string{"x", "y", "ab", "q;", "see the explain: column", "rate <= 100%"}[rng.Intn(6)]
 				case "zh":
-					rule = "required|" + []string{"必", "填", "必x"}[rng.Intn(3)]
+					rule = "required|" + []string{"必", "填", "必x", "年龄说明: 应该在 1-3 之间", "参见 explain: 一栏"}[rng.Intn(5)]
 				}
 			}
 			fields = append(fields, reflect.StructField{Name: fmt.Sprintf("F%d", i), Type: reflect.TypeOf(""), Tag: reflect.StructTag(`valid:"` + rule + `"`)})
